@@ -20,7 +20,7 @@ model's result is semantically equal to – and after canonicalising by the same
 normally identical with – the code's (checked on every case by `harness/c07.py`).
 
 Quirk flags (`QV/Base/Quirks.lean`), ON = the code as it is, OFF = after the proposed patch:
-`argIndexFromName`, `subsSequential`, `renameSequential`, `oraclizeRenames`.
+`argIndexFromName`, `subsSequential`, `renameSequential`, `compressSequential`, `oraclizeRenames`.
 -/
 namespace QV.Call
 open QV
@@ -109,11 +109,18 @@ def renameAll (q : Quirks) (p : String) : List (List String) → Defs → Defs
   | [], se :: t => expRename q p none se :: renameAll q p [] t
   | o :: os, se :: t => expRename q p (some o) se :: renameAll q p os t
 
-/-- the compression loop: `new_e = e.subs(d_exp); d_exp[s] = new_e; n_exps.append((s, new_e))` -/
-def compressGo (d : Defs) : Defs → Defs
+/-- one step of the compression loop: `new_e = e.xreplace(d_exp)` (one simultaneous replacement of all
+the symbols defined so far).  Quirk `compressSequential` ON: `new_e = e.subs(d_exp)` – sympy's unordered
+`subs` = one pair after the other in `default_sort_key` order (by symbol name, `sortKeys`), so a symbol
+inside a value that has just been put in is substituted again -/
+def compressSubst (q : Quirks) (d : Defs) (e : BExp) : BExp :=
+  if q.compressSequential then seqSubst (sortKeys d) e else simSubst d e
+
+/-- the compression loop: `new_e = e.xreplace(d_exp); d_exp[s] = new_e; n_exps.append((s, new_e))` -/
+def compressGo (q : Quirks) (d : Defs) : Defs → Defs
   | [] => []
   | (s, e) :: rest =>
-    (s, seqSubst (sortKeys d) e) :: compressGo (dictSet d s (seqSubst (sortKeys d) e)) rest
+    (s, compressSubst q d e) :: compressGo q (dictSet d s (compressSubst q d e)) rest
 
 /-- Python `l[-n:]` -/
 def lastN {α} (n : Nat) (l : List α) : List α := if n = 0 then l else l.drop (l.length - n)
@@ -123,7 +130,7 @@ def bindFunction (q : Quirks) (orders : List (List String)) (f : LogicFun) : Log
   { name := f.name
     args := f.args.map (argRename f.name)
     ret := f.ret
-    exps := lastN f.ret.bitvec.length (compressGo [] (renameAll q f.name orders f.exps)) }
+    exps := lastN f.ret.bitvec.length (compressGo q [] (renameAll q f.name orders f.exps)) }
 
 /-- `Env.defs` with `bind_function`'s guard (`if self.know_type(deff[0]): return`) -/
 def envBind (q : Quirks) (types : List String) (defs : List LogicFun)
@@ -247,15 +254,31 @@ return bits -/
 def LogicFun.sem (f : LogicFun) (argVals : List Bool) : List Bool :=
   f.ret.bitvec.map (run (zipEnv (argBits f) argVals) f.exps)
 
-/-- `Ok A K l`: every definition of `l` reads only base symbols `A` and earlier definitions
-(`K` = those already made), and defines a fresh name (single assignment, not a base symbol) -/
+/-- `Closed A K l`: every definition of `l` reads only base symbols `A` and names defined earlier
+(`K` = those already defined).  A definition MAY re-bind a name – an earlier definition's or a base
+symbol's (`a = a ^ b` in a callee that re-assigns its parameter) -/
+def Closed (A : List String) : List String → Defs → Prop
+  | _, [] => True
+  | K, (s, e) :: t => (∀ n ∈ e.syms, n ∈ A ∨ n ∈ K) ∧ Closed A (s :: K) t
+
+/-- `Ok A K l`: `Closed`, and every definition defines a fresh name (single assignment, not a base
+symbol) – what qlasskit's translator produces for a body without re-assignment -/
 def Ok (A : List String) : List String → Defs → Prop
   | _, [] => True
   | K, (s, e) :: t => s ∉ A ∧ s ∉ K ∧ (∀ n ∈ e.syms, n ∈ A ∨ n ∈ K) ∧ Ok A (s :: K) t
 
-/-- well-formed callee: single assignment, closed over its argument bits, distinct argument
-bits, return bits = the last definitions in order -/
+/-- well-formed callee: closed over its argument bits (re-binding allowed), distinct argument bits,
+return bits = the last definitions in order, pairwise distinct -/
 structure WF (f : LogicFun) : Prop where
+  closed : Closed (argBits f) [] f.exps
+  argsNodup : (argBits f).Pairwise (· ≠ ·)
+  retLast : (lastN f.ret.bitvec.length f.exps).map (·.1) = f.ret.bitvec
+  retNodup : f.ret.bitvec.Pairwise (· ≠ ·)
+  retNonempty : f.ret.bitvec ≠ []
+
+/-- the stronger well-formedness the theorems assumed while the compression was sequential: single
+assignment -/
+structure WFStrict (f : LogicFun) : Prop where
   ok : Ok (argBits f) [] f.exps
   argsNodup : (argBits f).Pairwise (· ≠ ·)
   retLast : (lastN f.ret.bitvec.length f.exps).map (·.1) = f.ret.bitvec
